@@ -130,6 +130,7 @@ class Check:
         self.log = []
         self.violations = []     # list of (replay_path, suffix)
         self.known_seen = Counter()
+        self.inconclusive = 0
         self.mod = importlib.import_module(modname)
 
     # -- reporting
@@ -191,6 +192,12 @@ class Check:
             post = getattr(mod, "model_post", None)
             mo2 = post(exp, mo) if post else mo
             if canon(mo2) != canon(exp["expect"]):
+                # the implementation raised while iterating a tied group in hash order before making
+                # all the draws the model (list order) needs: the recorded script is too short to
+                # decide; counted, never an alarm (DESIGN.md, "inconclusive replays")
+                if exp.get("inconclusive_ok") and isinstance(exp["expect"], Err) and mo2 == Err("EScript"):
+                    self.inconclusive += 1
+                    continue
                 kf = mod.known_finding(cases[i], "disagree", exp.get("what", "")) if hasattr(mod, "known_finding") else None
                 if kf and kf in known_ids:
                     self.known_seen[kf] += 1
@@ -308,6 +315,7 @@ class Check:
                 "known_findings_seen": dict(self.known_seen),
                 "oracle_only_subclaims": getattr(mod, "ORACLE_ONLY", []),
                 "corpus_cases": stats.get("n_corpus", 0),
+                "inconclusive_replays": self.inconclusive,
             },
             "assumptions": getattr(mod, "ASSUMPTIONS", []),
             "wall_s": round(time.time() - self.t0, 2),
